@@ -19,6 +19,9 @@ KeyValuePairs = Union[Dict[Any, Any], Sequence[Tuple[Any, Any]]]
 def _iterate_dict_like(iterable: KeyValuePairs) -> List[Tuple[Any, Any]]:
     if isinstance(iterable, dict):
         return list(iterable.items())
+    if hasattr(iterable, "keys"):
+        # any other mapping (dict.update() accepts anything with a keys() method)
+        return [(key, iterable[key]) for key in iterable.keys()]  # type: ignore
     return list(iterable)
 
 
